@@ -349,6 +349,6 @@ def run(ctx):
     from . import c09 as _c09
     borrow(ctx, "C02", _c09.rule_fetch_py, ctx.py)
     from .. import lints
-    lints.run(ctx, "C02", ctx.py, ["coarsegrain", "kinetics", "librdengine"])
+    lints.run(ctx, "C02", ctx.py, ["coarsegrain", "kinetics", "librdengine", "rdsystem", "rdscript", "simulate"])
     ctx.assume("floating-point exactness of the Euler sums is not decided; opposed_direction is an involution pairing "
                "opposite moves (C15.DISP); the stoichiometric matrix layout is C01.LAYOUT / C19.MATRIX")
